@@ -1029,8 +1029,7 @@ class DestHandler:
             start,
             end,
         ) in self._params.acked_params.lost_seg_tracker.lost_segments.items():
-            next_segment_reqs.append((start, end))
-            if len(next_segment_reqs) == max_segments_in_one_pdu:
+            if len(next_segment_reqs) >= max_segments_in_one_pdu:
                 self._add_packet_to_be_sent(
                     NakPdu(
                         self._params.pdu_conf,
@@ -1040,6 +1039,7 @@ class DestHandler:
                     )
                 )
                 next_segment_reqs = []
+            next_segment_reqs.append((start, end))
         if len(next_segment_reqs) > 0:
             self._add_packet_to_be_sent(
                 NakPdu(
